@@ -29,19 +29,22 @@ CONSTANTS Procs,        \* processes (factories)
           MaxFaults,    \* bound on injected faults per behaviour
           MaxOpFaults,  \* bound on injected faults per operation
           MaxRevokes,   \* bound on operator revocations
+          RevokeKinds,  \* kinds of key records the operator may revoke: subset of {"SK", "IK"}
           CfgSet,       \* set of functions Procs -> [ik: {"none","session","shared"}, sk: BOOLEAN, sess: BOOLEAN]
                         \* ("shared" = Policy.SharedIntermediateKeyCache; newSession consults only that flag, so the mode stands for
                         \*  both values of Policy.CacheIntermediateKeys and the driver alternates them)
           OpKinds,      \* API calls explored: subset of {"Enc", "Dec", "CloseSession", "Restart"}
           Ticks,        \* clock increments the environment may choose
-          MidOpTicks    \* TRUE: the clock may advance while operations are in flight
+          MidOpTicks,   \* TRUE: the clock may advance while operations are in flight
+          Frac          \* TRUE: "now" is model time plus a constant fraction of a second (never a whole second, as in production);
+                        \* creation stamps are whole seconds, so a key is expired AT model time created + E already
 
 NoKey == [created |-> -1, revoked |-> FALSE, kid |-> 0, loadedAt |-> 0, parent |-> 0, pkid |-> 0, dref |-> FALSE]
 ErrKey == [NoKey EXCEPT !.created = -2]
 IsKey(k) == k.created >= 0
 
 Stamp(t) == t - (t % P)
-ExpiredAt(cr, t) == t > cr + E
+ExpiredAt(cr, t) == IF Frac THEN t >= cr + E ELSE t > cr + E
 
 Scopes == {"SK", "shared"} \cup Parts
 EmptyCache == [ent |-> <<>>, latest |-> <<>>]       \* ent : <<id, created>> -> entry ; latest : id -> created
@@ -117,9 +120,9 @@ define {
     \cup (IF o.rec = 1 /\ o.calls # 0 THEN {"C20.ZeroCallsWhenFresh"} ELSE {})
     \cup (IF ~IsKey(k) THEN {} ELSE
           \* C04: the IK was already expired when the operation began although the store accepted every write
-          (IF ~o.sfault /\ t > k.created + E THEN {"C04.NoExpiredIK"} ELSE {})
+          (IF ~o.sfault /\ ExpiredAt(k.created, t) THEN {"C04.NoExpiredIK"} ELSE {})
           \* C04: IK whose parent SK expired more than R ago
-     \cup (IF ~o.sfault /\ t > k.parent + E + R THEN {IF k.dref THEN "C04.ParentExpiryBounded/decrypt-refresh" ELSE "C04.ParentExpiryBounded"} ELSE {})
+     \cup (IF ~o.sfault /\ ExpiredAt(k.parent + R, t) THEN {IF k.dref THEN "C04.ParentExpiryBounded/decrypt-refresh" ELSE "C04.ParentExpiryBounded"} ELSE {})
           \* C05: IK revoked more than R ago and a later stamp exists
           \* (a replacement could be persisted: no Store fault hit this process since the revocation)
      \cup (IF o.faults = 0 /\ Stamp(t) > k.created /\ \E tr \in RevokedAtOf("IK", part, k.created) : t > tr + R /\ lastSF < tr
@@ -377,7 +380,7 @@ ev:   while (TRUE) {
         } or {
           \* the operator flags a key record revoked in the metastore
           await (\A q \in Procs : Idle(q)) /\ nrev < MaxRevokes;
-          with (r \in {x \in store : ~x.revoked}) {
+          with (r \in {x \in store : ~x.revoked /\ x.k \in RevokeKinds}) {
             store := (store \ {r}) \cup {[r EXCEPT !.revoked = TRUE]};
             revAt := revAt \cup {<<r.k, r.part, r.created, now>>};
             nrev := nrev + 1;
@@ -426,9 +429,9 @@ EncViolations(k, o, part, lastSF) ==
   \cup (IF o.rec = 1 /\ o.calls # 0 THEN {"C20.ZeroCallsWhenFresh"} ELSE {})
   \cup (IF ~IsKey(k) THEN {} ELSE
 
-        (IF ~o.sfault /\ t > k.created + E THEN {"C04.NoExpiredIK"} ELSE {})
+        (IF ~o.sfault /\ ExpiredAt(k.created, t) THEN {"C04.NoExpiredIK"} ELSE {})
 
-   \cup (IF ~o.sfault /\ t > k.parent + E + R THEN {IF k.dref THEN "C04.ParentExpiryBounded/decrypt-refresh" ELSE "C04.ParentExpiryBounded"} ELSE {})
+   \cup (IF ~o.sfault /\ ExpiredAt(k.parent + R, t) THEN {IF k.dref THEN "C04.ParentExpiryBounded/decrypt-refresh" ELSE "C04.ParentExpiryBounded"} ELSE {})
 
 
    \cup (IF o.faults = 0 /\ Stamp(t) > k.created /\ \E tr \in RevokedAtOf("IK", part, k.created) : t > tr + R /\ lastSF < tr
@@ -1440,7 +1443,7 @@ ev == /\ pc["env"] = "ev"
                  /\ cmd' = [NoCmd EXCEPT !.n = 1 - cmd.n, !.cmd = "Tick", !.d = d]
             /\ UNCHANGED <<store, revAt, nrev>>
          \/ /\ (\A q \in Procs : Idle(q)) /\ nrev < MaxRevokes
-            /\ \E r \in {x \in store : ~x.revoked}:
+            /\ \E r \in {x \in store : ~x.revoked /\ x.k \in RevokeKinds}:
                  /\ store' = ((store \ {r}) \cup {[r EXCEPT !.revoked = TRUE]})
                  /\ revAt' = (revAt \cup {<<r.k, r.part, r.created, now>>})
                  /\ nrev' = nrev + 1
@@ -1475,7 +1478,7 @@ SKRecOf(r) == {s \in store : s.k = "SK" /\ s.created = r.parent}
 ChainClosed == \A d \in issued : \E r \in IKRecOf(d) : r.kid = d.ikKid /\ \E s \in SKRecOf(r) : s.kid = r.pkid
 
 \* C04: no IK is created under an SK that was expired when the creating operation began (the store having accepted its writes)
-NoIKUnderExpiredSK == \A r \in store : (r.k = "IK" /\ ~r.sf) => r.at <= r.parent + E
+NoIKUnderExpiredSK == \A r \in store : (r.k = "IK" /\ ~r.sf) => ~ExpiredAt(r.parent, r.at)
 
 \* per-operation clauses (C01 RoundTrip, C02 Recovers, C04, C05, C06, C20): none was ever violated,
 \* except the clauses the pinned implementation is known to break (known_findings.json)
@@ -1486,6 +1489,10 @@ NoViolationAtAll == viol = {}
 \* C14: the SDK never modifies or removes a metastore record (only the operator flips revoked)
 InsertOnly == [][\A r \in store : \E r2 \in store' : r2.k = r.k /\ r2.part = r.part /\ r2.created = r.created
                                        /\ r2.kid = r.kid /\ r2.parent = r.parent /\ r2.pkid = r.pkid /\ (r.revoked => r2.revoked)]_store
+\* keyCache: within one cache the latest alias of an id only moves forward - loading an older key (a decrypt of an old record)
+\* never makes it the key for new records. (A closed session / restarted factory starts from an empty cache: no alias.)
+LatestMovesForward == [][\A qq \in Procs : \A sc \in DOMAIN kc[qq] : \A kk \in DOMAIN kc[qq][sc].latest :
+                            (sc \in DOMAIN kc'[qq] /\ kk \in DOMAIN kc'[qq][sc].latest) => kc'[qq][sc].latest[kk] >= kc[qq][sc].latest[kk]]_kc
 \* Partial-order reduction for multi-process configurations (ACTION_CONSTRAINT): the steps between two external calls are
 \* local (they touch no shared variable another process reads), so a process that is in the middle of local work runs
 \* on to its next external call before anyone else moves.  Sound for every property above; cuts the interleavings of
